@@ -4,7 +4,7 @@
      [_parse_<mode>] method, working on the unread suffix [s[i:]] of the current
      buffer and returning how many bytes it consumed (0 = "return i"), the
      [feed] loop of nexttoken and [tokenize], which chops the data into
-     BUFSIZ-sized buffers and performs the one extra [_parse1(b"\n", 0)] at EOF;
+     BUFSIZ-sized buffers and feeds the extra b"\n" at EOF;
    - the BYTE layer is an automaton [step] that consumes exactly one byte and
      re-dispatches a delimiter the chunk layer would have left unread.
    Proofs/LexerProofs.v shows that feeding any chunking of the data through the
@@ -296,15 +296,15 @@ Fixpoint feed_chunks (st : lst) (cs : list (list Z)) : option lst :=
               end
   end.
 
-(* PSEOF from fillbuf: one call of the current state on b"\n", then eof *)
-Definition flush (st : lst) : lst := snd (parse1 st [10]).
+(* PSEOF from fillbuf: the current state is run on b"\n" until the byte is consumed, then eof *)
+Definition flush (st : lst) : option lst := feed (feed_fuel [10]) st [10].
 
 Definition tokens_of (st : lst) : list (Z * token) := rev (toks st).
 
 (* all tokens nexttoken() yields before PSEOF, reading from absolute offset pos *)
 Definition tokenize (bufsiz : nat) (pos : Z) (data : list Z) : option (list (Z * token)) :=
   match feed_chunks (init pos) (chunks (length data) bufsiz data) with
-  | Some st => Some (tokens_of (flush st))
+  | Some st => match flush st with Some st' => Some (tokens_of st') | None => None end
   | None => None
   end.
 
@@ -371,4 +371,4 @@ Definition run (st : lst) (s : list Z) : lst := fold_left step s st.
 
 (* the automaton's account of the whole tokenization *)
 Definition lex (pos : Z) (data : list Z) : list (Z * token) :=
-  tokens_of (flush (run (init pos) data)).
+  tokens_of (run (init pos) (data ++ [10])).
